@@ -73,6 +73,10 @@ def gen(rng, tier, dist):
                 "p_inner": 0.4 if rng.random() < 0.3 else 0.0, "p_self": 0.4 if rng.random() < 0.25 else 0.0,
                 # rSelf(.., rEnabledBy(x)) on the root table itself
                 "p_self0": 0.5 if c % 8 == 5 else 0.0}
+        if c % 9 == 4:
+            # long port names: addresses of 20..105 columns (a saved line breaks right behind the address)
+            opts["long_names"] = True
+            opts["p_sub"], opts["p_arr"] = 0.8, 0.6
         if c % 12 == 11:
             app = sc.static_app()         # the macro-made application
             ref = sc.Ref(app)
@@ -88,7 +92,9 @@ def gen(rng, tier, dist):
             # every 10th application also receives messages whose states the file does not carry: +-inf
             # on float ports, a symbol outside the map on a scalar option port (finding classes, see classify)
             exotic = 0.15 if c % 10 == 3 else 0.0
-            ops, mops = sc.gen_ops(rng, ref, nops, exotic=exotic, fill=0.3)
+            ops, mops = sc.gen_ops(rng, ref, nops, exotic=exotic, fill=0.9 if opts.get("long_names") else 0.3)
+            if opts.get("long_names"):
+                dist["save: application with long port names"] = dist.get("save: application with long port names", 0) + 1
             if exotic:
                 dist["save with non-finite floats / unknown option symbols among the messages"] = \
                     dist.get("save with non-finite floats / unknown option symbols among the messages", 0) + 1
